@@ -30,7 +30,7 @@ func init() {
 	register(&Rule{ID: "E-OPCHAIN", Props: []string{"C05", "C10", "C01"}, Floor: 12,
 		Doc: "each arithmetic and comparison helper uses the decimal128 primitive and the float operator the specification names for it, with the operands in source order (add: Add/+; subtract: Sub/-; multiply: Mul/*; divide: Quo//; integerDivide: QuoRem quotient; modulo: QuoRem remainder/math.Mod; less..greaterOrEqual: Cmp().Less()..)",
 		Run: ruleEOpChain})
-	register(&Rule{ID: "E-DECIMAL-EQ", Props: []string{"C05", "C20", "C14"}, Floor: 1,
+	register(&Rule{ID: "E-DECIMAL-EQ", Props: []string{"C05", "C20", "C14", "C03"}, Floor: 1,
 		Doc: "decimal128.Decimal values are never compared with == or != (struct equality distinguishes 1.0 from 1 and 0.30 from 0.3) nor used as map keys; equality goes through Equal/Cmp/Compare",
 		Run: ruleEDecimalEq})
 	register(&Rule{ID: "E-CONV-LOSSLESS", Props: []string{"C14", "C05", "C03"}, Floor: 10,
